@@ -49,6 +49,7 @@ def _is_recv_helper(facts, tr, ac):
 
 
 def run(facts, tr, rep):
+    facts, tr = facts.shallow, tr.shallow        # the hedging future is analysed with its private helper functions (sync and async) inlined; methods of the delay policy stay calls
     _n_ops = check_no_panicking_time_arith(facts, tr, rep, "C12.NO-PANIC-ARITH", facts.crates[CRATE].bodies)
     rep.note("panicking Instant/Duration operators examined in the crate: %d" % _n_ops)
     # the hedging coroutine: the body with tokio::spawn sites reachable from Hedge's Service::call
@@ -83,6 +84,9 @@ def run(facts, tr, rep):
 
     def from_channel(node, idx):
         node = peel(node)
+        if node[0] == "phi":
+            # one async block spawned from several places (a helper inlined twice): every capture site counts
+            return bool(node[1]) and all(from_channel(x, idx) for x in node[1])
         guard = 0
         while node[0] == "call" and guard < 6 and tr.call_of(node).def_ == CLONE:
             cc = tr.call_of(node)
@@ -107,6 +111,8 @@ def run(facts, tr, rep):
     # ------------------------------------------------------------ EVIDENCE
     nfail = 0
     for b in descendants(facts, hb):
+        if b is not hb and getattr(facts, "absorbed", None) is not None and facts.absorbed(b):
+            continue          # an async helper awaited in place: its body is part of hb in this view
         gb = graph(b)
         for i, blk in enumerate(b.blocks):
             for j, s in enumerate(blk["stmts"]):
